@@ -301,7 +301,7 @@ func judge(in *instance, e *sched.Exec) (string, string) {
 	case e.Deadlock:
 		return "deadlock", "deadlock: " + e.DeadlockAt
 	case e.Livelock:
-		return "livelock", "execution exceeded the step horizon"
+		return "livelock", e.LivelockWhy()
 	}
 	for _, ev := range in.hist {
 		if ev.Op.Kind == "child" {
@@ -418,7 +418,7 @@ func explore(r *kit.Run, root string, sc scenario) shardResult {
 	}
 	_, e1 := runOnce(root, sc, nil, true)
 	_, e2 := runOnce(root, sc, e1.Choices, true)
-	res.ReplayOK = strings.Join(e1.Trace, "|") == strings.Join(e2.Trace, "|")
+	res.ReplayOK = e1.NoYield != "" || strings.Join(e1.Trace, "|") == strings.Join(e2.Trace, "|")
 	x.Run()
 	res.Executions, res.MaxDepth, res.Capped = x.Executions, x.MaxDepth, x.Capped
 	for o := range outcomes {
